@@ -15,6 +15,7 @@ RULES = {
 }
 ASSUMPTIONS = ["values are moved by numpy/xarray/pandas (library)"]
 GT = "verde.utils.grid_to_table"
+MX = "verde.utils.make_xarray_grid"
 
 
 def order_args(t):
@@ -35,6 +36,21 @@ def order_args(t):
 def _from_extra_names(t):
     """the term is built from the extra coordinate names (the parameter, or what its validator returned)"""
     return any(x == ("param", "extra_coords_names") or (x[0] == "call" and callee(x) == "verde.base.utils.check_extra_coords_names") for x in walk(t) if isinstance(x, tuple) and x)
+
+
+def _segments(t):
+    """[(kind, payload, reversed)] runs of a sequence term: list/tuple displays with starred parts, whole-sequence [::-1]"""
+    if t[0] == "sub" and t[2][0] == "slice" and t[2][1] == NONE and t[2][2] == NONE and t[2][3] == const(-1):
+        return [(k, x, not r) for k, x, r in reversed(_segments(t[1]))]
+    if t[0] in ("list", "tuple"):
+        out = []
+        for it in t[1]:
+            if it[0] == "star":
+                out.extend(_segments(it[1]) if it[1][0] in ("list", "tuple", "sub") else [("many", it[1], False)])
+            else:
+                out.append(("one", it, False))
+        return out
+    return [("many", t, False)]
 
 
 def _mapping_view(t):
@@ -86,6 +102,33 @@ def check(ctx):
                lambda e: (e.kind == "store" and e.data[3] == "container" and _from_extra_names(e.data[1])) or
                (e.kind == "call" and callee(e.data[0]) == ".update" and _from_extra_names(e.data[0])),
                "extra-names-validated-before-use", "extra coordinate names are validated before they are used")
+    # a "shape repair" in a helper of make_xarray_grid: transposing an array because its shape equals the REVERSED grid shape, tested before
+    # (or without) establishing that it differs from the grid shape - for a square grid both shapes are equal and a correctly oriented array
+    # is transposed
+    from ..paths import known_functions
+    inv = known_functions() or set()
+    for hq in sorted(K.scope(ctx)):
+        if hq in inv or hq not in ctx.pkg.functions or not hq.startswith(MX.rsplit(".", 1)[0] + "."):
+            continue
+        badt = None
+        for p in ctx.paths(hq):
+            if p.exit != "return" or not isinstance(p.value, tuple):
+                continue
+            v = p.value
+            if not (v[0] == "call" and callee(v) == "numpy.transpose" and len(v[2]) == 1 and v[2][0][0] == "param"):
+                continue
+            arr = v[2][0]
+            def shape_of(t):
+                return t == ("attr", arr, "shape") or (t[0] == "call" and callee(t) == "numpy.shape" and t[2] == (arr,))
+            def rev(t):
+                if t[0] == "tuple" and len(t[1]) == 2 and all(x[0] == "sub" for x in t[1]) and t[1][0][1] == t[1][1][1] and (t[1][0][2], t[1][1][2]) in ((const(1), const(0)), (const(-1), const(-2))):
+                    return True         # (s[1], s[0]): the reversed 2-tuple written out (also what s[::-1] of a pair is normalised to)
+                return t[0] == "sub" and t[2][0] == "slice" and t[2][3] == const(-1) and t[2][1] == NONE and t[2][2] == NONE
+            eq_rev = [c for c, tv in p.conds if tv and c[0] == "cmp" and c[1] == "==" and ((shape_of(c[2]) and rev(c[3])) or (shape_of(c[3]) and rev(c[2])))]
+            differs = [c for c, tv in p.conds if tv and c[0] == "cmp" and c[1] == "!=" and (shape_of(c[2]) or shape_of(c[3]))]
+            if eq_rev and not differs:
+                badt = "%s transposes %s whenever its shape equals the reversed grid shape, without having established that it differs from the grid shape: on a square grid a correctly oriented array is transposed" % (hq.rsplit(".", 1)[1], arr[1])
+        ctx.check("R1", hq + "|no-transpose-of-a-correctly-shaped-array", False if badt else True, "no helper transposes an array that may already have the grid's shape", bad=badt or "", fn=hq, nontrivial=False)
     # ---- R2 grid_to_table
     K.roles_rule(ctx, "R2", [GT], with_return=False, require={GT: [{"meshgrid-operands"}, {"zip-name-array", "dict-entry"}]})
     n = 0
@@ -164,7 +207,17 @@ def check(ctx):
             same_loop = ce[4] == ne[4]
             val = Q.unwrap(ce[2])
             oke = True if same_loop and val[0] == "sub" and val[1] == ("param", "grid") and val[2] == ne[2] else None
-        ctx.check("R2", "%s|extra-coordinates-appended|%s" % (GT, tag), oke, "each extra coordinate is appended together with its own name", fn=GT)
+        bad_e = None
+        if oke is None:
+            # the LAST run of each sequence (names: the extra names; columns: the extra arrays) enumerates the same filtered iteration; when
+            # exactly one of the two is reversed (a [::-1] applied to a list that holds more than the two meshes) the names label other arrays
+            ns, cs = _segments(names_t), _segments(cols_t)
+            if ns and cs and ns[-1][0] == "many" and cs[-1][0] == "many":
+                a, b = ns[-1][1], cs[-1][1]
+                if a[0] == "comp" and b[0] == "comp" and a[3] == b[3] and a[5] == b[5] and ns[-1][2] != cs[-1][2]:
+                    oke = False
+                    bad_e = "the extra coordinate arrays are enumerated in reversed order relative to their names (a [::-1] meant for the two meshes reverses the extra columns too): with two or more extra coordinates each is labelled with another one's name"
+        ctx.check("R2", "%s|extra-coordinates-appended|%s" % (GT, tag), oke, "each extra coordinate is appended together with its own name", bad=bad_e or "", fn=GT)
     if n < 2:
         ctx.add("R2", GT + "|paths", "UNDECIDED", "Dataset and DataArray paths not both found", fn=GT)
     # ---- R3 inverse pair: both conversions meet the Coords contract (checked with return roles above under R1) + validation in both
